@@ -43,6 +43,12 @@ class AccessMixin(object):
 
   # ------------------------------------------------------------------ attribute
   def ev_Attribute(self, node, st, cx):
+    ch = attr_chain(node)
+    if ch and len(ch) > 1 and any(n in DROP_ROOTS and n not in self.keep_roots for n in ch[:-1]):
+      # a logging / metrics callable taken as a value (log_fn = self._log.debug): calling it is dropped
+      self.dropped.add('.'.join(ch))
+      yield st, VBound('noop', '.'.join(ch))
+      return
     for st1, base in self.ev(node.value, st, cx):
       if isinstance(base, Exc):
         yield st1, base
